@@ -25,8 +25,10 @@ pub struct Step {
     pub deps: u8,
     /// the command leaves an output untouched when its content would not change
     pub restat: bool,
-    /// the step that regenerates the manifest
+    /// a step that regenerates manifest text (the manifest itself, or an included file)
     pub regen: bool,
+    /// the generator of the included file `inc.ninja` (the manifest step depends on it)
+    pub subgen: bool,
 }
 
 #[derive(Clone, Debug, Serialize, PartialEq)]
@@ -59,6 +61,8 @@ pub struct GenOpts {
     pub defaults_pct: usize,
     pub rsp: bool,
     pub alt_manifest_pct: usize,
+    /// among self-regenerating projects: share with a separately generated included file
+    pub subgen_pct: usize,
 }
 impl Default for GenOpts {
     fn default() -> Self {
@@ -77,6 +81,7 @@ impl Default for GenOpts {
             defaults_pct: 0,
             rsp: true,
             alt_manifest_pct: 0,
+            subgen_pct: 0,
         }
     }
 }
@@ -141,7 +146,7 @@ impl Proj {
             if phony {
                 phony_outs.extend(outs.iter().cloned());
             }
-            steps.push(Step { uid: i, outs: outs.clone(), nexp, ins, imp, oo, val: vec![], phony, ver: 0, pool, rsp, deps, restat: t.chance(25), regen: false });
+            steps.push(Step { uid: i, outs: outs.clone(), nexp, ins, imp, oo, val: vec![], phony, ver: 0, pool, rsp, deps, restat: t.chance(25), regen: false, subgen: false });
             avail.extend(outs);
         }
         if o.validations {
@@ -165,7 +170,20 @@ impl Proj {
                     imp.push(s.outs[0].clone());
                 }
             }
-            steps.push(Step { uid, outs: vec![manifest.clone()], nexp: 1, ins: vec!["gen.in".into()], imp, oo: vec![], val: vec![], phony: false, ver: 0, pool: None, rsp: None, deps: 0, restat: false, regen: true });
+            let mut oo = vec![];
+            let mut uid = uid;
+            if t.chance(o.subgen_pct) {
+                // all user statements live in inc.ninja, produced by its own generator from sub.in
+                steps.push(Step { uid, outs: vec!["inc.ninja".into()], nexp: 1, ins: vec!["sub.in".into()], imp: vec![], oo: vec![], val: vec![], phony: false, ver: 0, pool: None, rsp: None, deps: 0, restat: false, regen: true, subgen: true });
+                sources.push("sub.in".into());
+                if t.chance(50) {
+                    oo.push("inc.ninja".to_string());
+                } else {
+                    imp.push("inc.ninja".to_string());
+                }
+                uid += 1;
+            }
+            steps.push(Step { uid, outs: vec![manifest.clone()], nexp: 1, ins: vec!["gen.in".into()], imp, oo, val: vec![], phony: false, ver: 0, pool: None, rsp: None, deps: 0, restat: false, regen: true, subgen: false });
             sources.push("gen.in".into());
         }
         let n = steps.len();
@@ -277,6 +295,9 @@ impl Proj {
             self.closure(&all)
         }
     }
+    pub fn has_subgen(&self) -> bool {
+        self.steps.iter().any(|s| s.subgen)
+    }
     pub fn regen_closure(&self) -> BTreeSet<usize> {
         self.closure(&[self.manifest.clone()])
     }
@@ -330,7 +351,8 @@ impl Proj {
         }
         let use_var = st % 4 >= 2;
         let mut inc = String::new();
-        let split = st % 5 == 3;
+        let has_subgen = self.steps.iter().any(|s| s.subgen);
+        let split = st % 5 == 3 || has_subgen;
         for (k, &i) in self.order.iter().enumerate() {
             let s = &self.steps[i];
             let mut b = String::new();
@@ -385,7 +407,7 @@ impl Proj {
                 }
             }
             // In split style the second half of the statements lives in an included file.
-            if split && k >= self.order.len() / 2 && !s.regen {
+            if (has_subgen && !s.regen) || (!has_subgen && split && k >= self.order.len() / 2 && !s.regen) {
                 inc += &b;
             } else {
                 t += &b;
